@@ -57,7 +57,11 @@ let () =
                   o_moves = (if moves = "" then [] else List.map mv (split ';' moves));
                   o_attackers = (if atts = "" then [] else List.map att (split ';' atts)) } in
         let errs = List.sort_uniq compare (List.map int_of_n (check_pos o)) in
-        if errs = [2] then incr nskip
+        (* every generated position is a legal position (corpus, legal placements, legal play from them:
+           Rules.make_preserves_legal_pos); one that the specification rejects has been reached through a
+           wrong successor or accepted from a wrong FEN, and is reported, not skipped *)
+        if errs = [2] then begin incr nskip;
+          Printf.printf "MISMATCH|not-a-legal-position|%s|engine_legal=%s\n" fen legal end
         else if errs <> [] then begin
           incr nbad;
           let exp = (match spec_legal_of_fen (str_of_string fen) with Some l -> codes_str l | None -> "?") in
